@@ -12,4 +12,5 @@ func moreFacts() {
 	c09Facts()
 	c05Facts()
 	c10Facts()
+	c06Facts()
 }
